@@ -2,8 +2,8 @@ SPECIFICATION Spec
 CONSTANTS
   Threads = {t1, t2}
   Keys = {k1, k2}
-  Ranges <- MCRanges
-  Capacity = 4
+  Ranges <- MCRanges2
+  Capacity = 5
   FixDrift = TRUE
   WithEnv = FALSE
   FsExact = TRUE
